@@ -121,17 +121,37 @@ func snap(ctx *model.Context, skip map[int]bool) (*snapshot, error) {
 	return s, nil
 }
 
-// readInput: real read + relaxed validation.
-func readInput(doc []byte, conf *model.Configuration) (ctx *model.Context, err error) {
+// readInput: real read + relaxed validation, then the writer's own first step on the catalog,
+// xRefTable.BindNameTrees (writeRootObject), which re-creates the name tree nodes from the
+// cache validation has filled: the snapshot "before" is taken after it, and the content of
+// the name trees (tree, key, unfolded value) is compared across it separately (bindDiff).
+func readInput(doc []byte, conf *model.Configuration) (ctx *model.Context, bindDiff string, err error) {
 	err = guard(func() error {
 		var e error
 		ctx, e = api.ReadContext(bytes.NewReader(doc), conf)
 		if e != nil {
 			return e
 		}
-		return api.ValidateContext(ctx)
+		if e = api.ValidateContext(ctx); e != nil {
+			return e
+		}
+		n1, e := nameTrees(ctx)
+		if e != nil {
+			return e
+		}
+		if e = ctx.BindNameTrees(); e != nil {
+			return fmt.Errorf("BindNameTrees: %w", e)
+		}
+		n2, e := nameTrees(ctx)
+		if e != nil {
+			return e
+		}
+		if strings.Join(n1, "\n") != strings.Join(n2, "\n") {
+			bindDiff = firstDiff(n1, n2)
+		}
+		return nil
 	})
-	return ctx, err
+	return ctx, bindDiff, err
 }
 
 func writeOut(ctx *model.Context) (out []byte, err error) {
@@ -238,7 +258,10 @@ func runDoc(r *vh.Run, dc docCase, configs []wconf) {
 	var refText string
 	var refConf string
 	for ci, c := range configs {
-		ctx1, err := readInput(dc.doc, c.conf())
+		ctx1, bindDiff, err := readInput(dc.doc, c.conf())
+		if err == nil && bindDiff != "" && ci == 0 {
+			r.OracleFail("name-tree-content-changed-by-bind", input(c), bindDiff)
+		}
 		if err != nil {
 			r.Count("doc:input-rejected")
 			if ci == 0 && strings.HasPrefix(err.Error(), "PANIC") {
@@ -353,24 +376,12 @@ func infoArg(s *snapshot) string {
 }
 
 func stripFreshInfo(lines []string) []string {
-	if len(lines) == 0 {
-		return lines
+	// the info dict is numbered last: "info=@k" followed by "@k=<<>>" for a fresh one
+	n := len(lines)
+	if n >= 2 && strings.HasPrefix(lines[n-2], "info=@") && strings.HasSuffix(lines[n-1], "=<<>>") {
+		return lines[:n-2]
 	}
-	// head: "root=@0 info=@k"; the fresh info object is line "@k=<<>>"
-	h := lines[0]
-	i := strings.Index(h, " info=@")
-	if i < 0 {
-		return lines
-	}
-	k := h[i+len(" info=@"):]
-	out := []string{h[:i]}
-	for _, l := range lines[1:] {
-		if l == "@"+k+"=<<>>" {
-			continue
-		}
-		out = append(out, l)
-	}
-	return out
+	return lines
 }
 
 func corpusFiles() []string {
